@@ -24,9 +24,11 @@ class Result:
 
 class _Stdin:
     """what main() needs of standard input: sys.stdin.buffer.read()"""
-    def __init__(self, data):
+    def __init__(self, data, encoding='utf-8'):
         import io
         self.buffer = io.BytesIO(data)
+        self.encoding = encoding        # what the locale / PYTHONIOENCODING would make of the text layer
+        self.errors = 'strict'
 
     def read(self, *a):
         return self.buffer.read(*a).decode('utf-8', 'replace')
@@ -35,7 +37,7 @@ class _Stdin:
         return False
 
 
-def run_main(args, stdin=None, real_streams=False):
+def run_main(args, stdin=None, real_streams=False, stdin_encoding='utf-8'):
     """Runs main(['graphtage', *args]) with in-memory stdout/stderr (and standard input, if bytes are given). Never raises
     for exceptions escaping main(). With real_streams the two output streams are real files with file descriptors, which
     is what selects the Printer's line-buffered tqdm.write path that a terminal or a pipe gets (an in-memory stream takes
@@ -51,7 +53,7 @@ def run_main(args, stdin=None, real_streams=False):
         out, err = common.Cap(), common.Cap()
     sys.stdout, sys.stderr = out, err
     if stdin is not None:
-        sys.stdin = _Stdin(stdin)
+        sys.stdin = _Stdin(stdin, stdin_encoding)
     rc, exc, key = None, None, None
     import logging
     # main() configures logging with logging.basicConfig(stream=Printer(sys.stderr)), which is a no-op once the root logger
